@@ -64,6 +64,19 @@ class Ctx:
         self.phase_mod = phase_mod
         self.sp_lookup = sp_lookup or (lambda cid, amp, don, doff: 0)
 
+    qids = None    # optional list of the register's qubit ids in register order (default q1, q2, ...)
+
+    def qid(self, k):
+        return self.qids[k - 1] if self.qids is not None else f"q{k}"
+
+    def mask(self, ids):
+        if self.qids is None:
+            return ids_to_mask(ids)
+        m = 0
+        for i in ids:
+            m |= 1 << self.qids.index(i)
+        return m
+
     def ph(self, x):
         v = int(round(float(x) / self.phase_unit))
         return v % self.phase_mod if self.phase_mod else v
@@ -76,7 +89,7 @@ def project(seq, ctx):
         cid = ctx.cid_of(cs.channel_id)
         slots = []
         for sl in cs.slots:
-            tg = ids_to_mask(sl.targets)
+            tg = ctx.mask(sl.targets)
             if isinstance(sl.type, Pulse):
                 fs, fe = fall_times(sl.type, ch_obj)
                 slots.append({"k": "p", "ti": int(sl.ti), "tf": int(sl.tf), "tg": tg,
@@ -98,7 +111,7 @@ def project(seq, ctx):
             mp = [int(round(2 * float(np.max(wts)))), int(round(2 * float(np.sum(wts))))]
             wt = bool(cs._waiting_for_first_pulse)
             wmap = cs.detuning_map.get_qubit_weight_map(seq.register.qubits)
-            wq = [int(round(2 * float(wmap[f"q{k}"]))) for k in range(1, ctx.dev["nq"] + 1)]
+            wq = [int(round(2 * float(wmap[ctx.qid(k)]))) for k in range(1, ctx.dev["nq"] + 1)]
         else:
             mp, wt, wq = [0, 0], False, []
         ent = {"nm": ctx.nm_of(name), "cid": cid, "sl": slots, "eb": blocks, "wt": wt, "mp": mp,
@@ -110,7 +123,7 @@ def project(seq, ctx):
     for basis, d in seq._basis_ref.items():
         qs = []
         for k in range(1, nq + 1):
-            r = d[f"q{k}"]
+            r = d[ctx.qid(k)]
             qs.append({"lu": int(r.last_used), "ts": [int(t) for t in r.phase._times],
                        "ps": [ctx.ph(p) for p in r.phase._phases]})
         refs.append({"b": basis, "q": qs})
@@ -125,7 +138,7 @@ def project(seq, ctx):
         "mode": "xy" if seq._in_xy else ("ising" if seq._in_ising else "none"),
         "meas": getattr(seq, "_measurement", ""),
         "empty": bool(seq._empty_sequence),
-        "slmDmm": slm, "slmNm": slm_nm, "slmTg": ids_to_mask(seq._slm_mask_targets),
+        "slmDmm": slm, "slmNm": slm_nm, "slmTg": ctx.mask(seq._slm_mask_targets),
         "ch": chans,
         "rf": refs,
         "lg": [c.name for c in seq._calls[1:]],
